@@ -254,7 +254,7 @@ func (i *interpreter) rangeMap(fr *frame, m *omap) iter {
 		it.order = live
 		it.fixed = true
 		if i.ex != nil && i.ex.symMapOrder && len(live) > 1 && fr != nil && i.mapOrderApplies(fr) {
-			it.order = i.ex.chooseOrder(live)
+			it.order = i.ex.chooseOrderFor(m, live)
 		}
 		return it
 	}
@@ -268,7 +268,7 @@ func (i *interpreter) rangeMap(fr *frame, m *omap) iter {
 	it.next0 = len(m.entries)
 	it.order = live
 	if i.ex != nil && i.ex.symMapOrder && len(live) > 1 && fr != nil && i.mapOrderApplies(fr) {
-		it.order = i.ex.chooseOrder(live)
+		it.order = i.ex.chooseOrderFor(m, live)
 	}
 	return it
 }
